@@ -161,25 +161,31 @@ pub fn fill(dt: Dt, shape: &[usize], k: usize) -> Value {
 pub type RunOut = Result<Vec<Value>, String>;
 
 pub fn run(model: &Model, prog: &Prog, shapes: &[Vec<usize>], k: usize) -> RunOut {
+    run_with(model, prog, shapes, k, false)
+}
+
+/// `by_name`: look the outputs up with `Model::find_node(name)` instead of `Model::output_ids()`.
+pub fn run_with(model: &Model, prog: &Prog, shapes: &[Vec<usize>], k: usize, by_name: bool) -> RunOut {
     let r = vp_core::catch(|| -> Result<Vec<Value>, String> {
         let mut inputs = Vec::new();
         for (i, inp) in prog.inputs.iter().enumerate() {
             let id = model.find_node(&inp.name).ok_or_else(|| format!("input {} not found", inp.name))?;
             inputs.push((id, fill(inp.dt, &shapes[i], k).into()));
         }
-        // Graph input/output ids must be preserved by optimisation: look the
-        // outputs up by name in the model's own output list.
-        let mut outs = Vec::new();
-        for (o, _) in &prog.outputs {
-            let id = model.find_node(o).ok_or_else(|| format!("output {} not found", o))?;
-            if !model.output_ids().contains(&id) {
-                return Err(format!("output {o} is not in Model::output_ids"));
-            }
-            outs.push(id);
-        }
+        // Outputs are requested by position from the model's own output list
+        // (what `Model::run_one` / `output_ids()` users do).
         if model.output_ids().len() != prog.outputs.len() {
             return Err("Model::output_ids has the wrong length".into());
         }
+        let outs: Vec<rten::NodeId> = if by_name {
+            let mut outs = Vec::new();
+            for (o, _) in &prog.outputs {
+                outs.push(model.find_node(o).ok_or_else(|| format!("output {} not found by name", o))?);
+            }
+            outs
+        } else {
+            model.output_ids().to_vec()
+        };
         model.run(inputs, &outs, None).map_err(|e| e.to_string())
     });
     match r {
@@ -336,6 +342,8 @@ pub struct Violation {
     /// what differs
     pub what: String,
     pub detail: String,
+    /// the optimize=on,infer=off configuration agrees with the reference
+    pub only_with_inference: bool,
 }
 
 #[derive(Clone, Debug, Default)]
@@ -408,6 +416,7 @@ pub fn eval_case(cfgs: &Configs, prog: &Prog) -> CaseResult {
                 site: "load".into(),
                 what: "two loads of the same configuration disagree (one fails)".into(),
                 detail: format!("{}: first load {:?}, second load {:?}", CFG_NAMES[c], a[c].err, b[c].err),
+                only_with_inference: false,
             });
         } else if a[c].ops != b[c].ops {
             res.structural_nondeterminism = true;
@@ -468,6 +477,18 @@ pub fn eval_case(cfgs: &Configs, prog: &Prog) -> CaseResult {
                             ));
                             continue;
                         }
+                        // the same outputs requested by name (Model::node_id users)
+                        let got_n = run_with(m, prog, shapes, k, true);
+                        if let Some(what) = compare(ref_vals, &got_n) {
+                            viol[c] = Some((
+                                format!("{what} when outputs are looked up by name"),
+                                format!(
+                                    "input shapes {:?} fill {}: {} gives {} ; {} gives {} by position but {} by name",
+                                    shapes, k, CFG_NAMES[0], show_outputs(&r0), CFG_NAMES[c], show_outputs(&got), show_outputs(&got_n)
+                                ),
+                            ));
+                            continue;
+                        }
                         // second load of the same configuration
                         if let Some(m2) = &b[c].model {
                             let got2 = run(m2, prog, shapes, k);
@@ -488,6 +509,7 @@ pub fn eval_case(cfgs: &Configs, prog: &Prog) -> CaseResult {
                                         show_outputs(&got),
                                         show_outputs(&got2)
                                     ),
+                                    only_with_inference: false,
                                 });
                             }
                         }
@@ -526,6 +548,7 @@ pub fn eval_case(cfgs: &Configs, prog: &Prog) -> CaseResult {
             site,
             what,
             detail: format!("{detail} | failing configurations: {failing:?} | optimized graph: {}", opt_listing.join(" ; ")),
+            only_with_inference: only_inf,
         });
     } else if let Some(n) = nondet {
         res.violation = Some(n);
